@@ -110,11 +110,16 @@ func (c *Chain) ProjectDid(ctx sdk.Context) M {
 	it := store.Iterator(nil, nil)
 	defer it.Close()
 	cells, junk := []any{}, []any{}
+	fillers := 0
 	for ; it.Valid(); it.Next() {
 		k, v := it.Key(), it.Value()
 		var d didtypes.DIDDocumentWithSeq
 		if len(k) == 0 || k[0] != 0x00 || c.cdc().UnmarshalLengthPrefixed(v, &d) != nil {
 			junk = append(junk, hx(k)+"="+hx(v))
+			continue
+		}
+		if c.Opts.Bulk > 0 && isIntactFiller(string(k[1:]), &d, c.Opts.Bulk) {
+			fillers++
 			continue
 		}
 		name, known := didRev[string(k[1:])]
@@ -125,7 +130,7 @@ func (c *Chain) ProjectDid(ctx sdk.Context) M {
 		}
 		cells = append(cells, M{"d": name, "doc": doc, "seq": int(d.Sequence), "nildoc": d.Document == nil})
 	}
-	return M{"cells": cells, "junk": junk}
+	return M{"cells": cells, "junk": junk, "fillers": fillers}
 }
 
 // ProjectPnft reads the x/nft layout inside the pnft store:
